@@ -707,6 +707,10 @@ class Ncp:
     def h_startScan(self, req, scanType, channelMask, duration):
         chans = [c for c in range(11, 27) if int(channelMask) & (1 << c)]
         step = getattr(self, "scan_step", 0.01)  # time per channel
+        if getattr(self, "scan_exclusive", False):
+            if self.loop.time() < getattr(self, "_scan_busy_until", -1.0):
+                return (St("INVALID_CALL"),)  # one scan at a time
+            self._scan_busy_until = self.loop.time() + step * (len(chans) + 2)
         if int(scanType) == 0:  # energy scan
             for i, c in enumerate(chans):
                 self.callback("energyScanResultHandler", (c, -90 + (c * 7) % 30), step * (i + 1))
